@@ -4,7 +4,7 @@
 # i.e. without touching /repo or /verif (usable while other runs build from /repo). Reverts afterwards.
 set -u
 P="$1"; shift
-W=/tmp/work-dev
+W=/tmp/work-${DEV_NAME:-dev}
 cd $W/repo || exit 2
 git diff --quiet || { echo "$W/repo dirty; refusing"; exit 3; }
 # (the binaries are rebuilt from the reverted tree on the way out: a later run must not meet a patched rg)
